@@ -134,6 +134,15 @@ class _C10(Spec):
                     add(m + d)
             for _ in range(1500 if tier == "quick" else 6000):
                 add(rng.randrange(-5364662400, 7258118400))
+            # particular instants: zero and its neighbours, whole days around it, the 32-bit edges, the local
+            # midnights of the days around the epoch in this zone
+            for e0 in (0, 86400, -86400, 2 ** 31, -(2 ** 31), 2 ** 32, 946684800, -2208988800, 4102444800):
+                for d in (-2, -1, 0, 1, 2):
+                    add(e0 + d)
+                o = off_at(off0, tr, e0)
+                for d in (-1, 0, 1):
+                    add(e0 - o + d)
+                    add(e0 - o + 86400 + d)
             groups.append(g)
         return [Stream("zone-instants", None, groups=groups)]
 
